@@ -265,9 +265,18 @@ class GoExec:
         for t in terms:
             collect_syms(t, syms, seen)
         litf = []
+        lits = []
         for s in syms:
             if s.startswith('strlit!'):
                 litf += lit_facts(STRLIT_BY_NAME[s])
+                lits.append(STRLIT_BY_NAME[s])
+        if len(lits) > 1 and 'str_ident' in syms:
+            # string literals with different contents are different strings: their identities (map keys) differ
+            ids = [self.str_ident(v.arr, v.off, v.len) for v in lits]
+            for i in range(len(lits)):
+                for j in range(i + 1, len(lits)):
+                    if lits[i].lit != lits[j].lit:
+                        litf.append(ids[i] != ids[j])
         if not axs:
             return litf
         info = []
